@@ -201,6 +201,63 @@ def gen_workloads(rng, shapes, n, maxrecs=12, pages=(1, 2, 3, 7, 1000), codecs=(
     return out
 
 
+def run_structured_workloads(rng, shapes, tier):
+    """N identical records then a different one, so that the level streams hold runs of exactly N equal levels
+    (8-value, 63/64-group and multi-byte-header boundaries of the RLE/bit-packed hybrid encoder), and alternating
+    records (long bit-packed runs)"""
+    ws = []
+    # run-structured: N identical records then a different one, so that the level streams hold runs of exactly N
+    # equal levels (8-value, 63/64-group and multi-byte-header boundaries of the RLE/bit-packed hybrid encoder)
+    ns = [7, 8, 9, 63, 64, 65, 127, 128, 129, 504, 505, 512, 513]
+    if tier == "quick":
+        ns = [8, 63, 64, 65, 128, 505, 512]
+    for sh in shapes:
+        if sh.name not in ("opt3", "boolopt"):
+            continue
+        full = S.gen_value(rng, sh.model_fields(), maxlist=2, pnull=0.0, extreme=0.3)
+        empty = S.gen_value(rng, sh.model_fields(), maxlist=0, pnull=1.0, extreme=0.3)
+        alt = [full, empty]
+        for n in ns:
+            for mx in (1000, n):
+                ws.append(Workload(sh, rng.randrange(3), mx, [full] * n + [empty, "W"], "run-of-%d" % n if n in (64, 505) else "run-structured"))
+            ws.append(Workload(sh, rng.randrange(3), 1000, [alt[i % 2] for i in range(n + 1)] + [full] * 9 + ["W"], "alternating"))
+        if sh.name == "boolopt":
+            # a run of >= 8192 equal levels: run header of three ULEB128 bytes
+            ws.append(Workload(sh, rng.randrange(3), 10000, [full] * 8200 + [empty, "W"], "run-of-8200"))
+    return ws
+
+
+def big_workloads(shapes, codecs=(2, 1, 0), plans=((6000, 9000), (4096, 8192))):
+    """files whose pages are larger than / exact multiples of the 32 KiB window of deflate and of typical read buffers:
+    two required numeric columns, (page size, records) per plan; values vary so that compressed pages are not tiny"""
+    fn = next((s for s in shapes if s.name == "flatnum"), None)
+    if fn is None:
+        return []
+    out = []
+    for codec in codecs:
+        for mx, n in plans:
+            recs = ["G 2 %s %s" % (S.tok_num((i * 2654435761) % (1 << 40)), S.tok_num(4607182418800017408 + (i * 40503) % (1 << 30))) for i in range(n)]
+            out.append(Workload(fn, codec, mx, recs + ["W"], "large-pages"))
+    return out
+
+
+def long_string_workloads(rng, shapes, sizes=(1100, 3000, 70000)):
+    """records whose string values are longer than 1 KiB / 64 KiB (limits of decoders and buffers; they also end up
+    in the page-header statistics)"""
+    out = []
+    for sh in shapes:
+        if sh.name not in ("flat24", "person"):
+            continue
+        for k, size in enumerate(sizes):
+            recs = []
+            for j in range(3):
+                toks = S.gen_value(rng, sh.model_fields(), maxlist=2, pnull=0.2, extreme=0.3).split()
+                toks = [("S" + C.hexs(bytes((97 + (i + j + n) % 23) for i in range(size + n)))) if t.startswith("S") and (n + j) % 2 == 0 else t for n, t in enumerate(toks)]
+                recs.append(" ".join(toks))
+            out.append(Workload(sh, (k + len(out)) % 3, (1000, 2)[k % 2], recs[:2] + ["W"] + recs[2:] + ["W"], "long-strings"))
+    return out
+
+
 def replay_workload(chk, data, oracles, mutate=False, validate_level=1, read=True):
     """re-run one stored workload (see Workload.replay) through the given oracles"""
     shapes, runner = get_portfolio(chk)
